@@ -72,6 +72,21 @@ func (l *baseLeaf) getSegment() *Segment {
 
 func (l *baseLeaf) SetHeaderMatcher(m *HeaderMatcher) {
 	l.headerMatcher = m
+
+	// The short form of a route with an optional last segment is another leaf of
+	// the same route one level up, it is constrained by the same matcher.
+	if l.segment == nil || !l.segment.Optional || l.parent == nil {
+		return
+	}
+	host := l.parent
+	if host.getParent() != nil {
+		host = host.getParent()
+	}
+	for _, leaf := range host.getLeaves() {
+		if !leaf.getSegment().Optional && leaf.Route() == l.Route() {
+			leaf.SetHeaderMatcher(m)
+		}
+	}
 }
 
 func (l *baseLeaf) matchHeader(header http.Header) bool {
